@@ -70,6 +70,18 @@ PDFS = {
 }
 
 
+def dask_dtypes(pdf):
+    """The frame held in the column dtypes dask-expr itself uses for it (pyarrow
+    strings when enabled): what the pandas reference is applied to."""
+    from dask.dataframe.utils import pyarrow_strings_enabled
+
+    if pyarrow_strings_enabled():
+        from dask.dataframe._pyarrow import to_pyarrow_string
+
+        return to_pyarrow_string(pdf)
+    return pdf
+
+
 def cut(pdf, bounds):
     """Split pdf into contiguous pieces at the given row positions."""
     edges = [0] + list(bounds) + [len(pdf)]
